@@ -36,10 +36,12 @@ pub struct Case {
   pub seed: u64,
 }
 
-fn prod_chain(p: &Prod, middle: &[Op]) -> Chain {
+fn prod_chain(p: &Prod, middle: &[Op], seed: u64) -> Chain {
   let src = match p {
     Prod::Interval(ms) => Src::Interval(*ms),
-    Prod::Iter => Src::IterCount(PID, CAP),
+    // an even cap makes the counting iterator report its exact remaining length (like a Vec or
+    // a range), an odd one leaves size_hint() at its default (like a filter / from_fn iterator)
+    Prod::Iter => Src::IterCount(PID, CAP + (seed % 2) as usize),
     Prod::Stream => Src::Stream(
       PID,
       Scripted { items: vec![(1, Ok(V::I(0))), (0, Ok(V::I(1))), (2, Ok(V::I(2)))], end_pending: 0, endless: true, self_wake: true },
@@ -53,13 +55,13 @@ fn prod_chain(p: &Prod, middle: &[Op]) -> Chain {
 pub fn chain_of(c: &Case) -> Chain {
   match c.secondary {
     None => {
-      let mut ch = prod_chain(&c.prod, &c.middle);
+      let mut ch = prod_chain(&c.prod, &c.middle, c.seed);
       ch.ops.push(c.cutter.clone());
       ch
     }
     Some(op) if op.starts_with("inner-of-") => {
       // the producer is an inner observable of a flattening operator over a hot outer
-      let inner = prod_chain(&c.prod, &c.middle);
+      let inner = prod_chain(&c.prod, &c.middle, c.seed);
       let fl = match op {
         "inner-of-flat_map" => Op::FlatMap(vec![inner]),
         "inner-of-concat_map" => Op::ConcatMap(vec![inner]),
@@ -68,12 +70,12 @@ pub fn chain_of(c: &Case) -> Chain {
       Chain::new(Src::Hot(0), vec![fl, c.cutter.clone()])
     }
     Some(op) if c.main_cold > 0 => {
-      let sec = prod_chain(&c.prod, &c.middle);
+      let sec = prod_chain(&c.prod, &c.middle, c.seed);
       let main = if c.main_cold == 1 { Src::Throw(7) } else { Src::Empty };
       Chain::new(main, vec![crate::props::c04::mk_op(op, sec)])
     }
     Some(op) => {
-      let sec = prod_chain(&c.prod, &c.middle);
+      let sec = prod_chain(&c.prod, &c.middle, c.seed);
       Chain::new(Src::Hot(0), vec![crate::props::c04::mk_op(op, sec), c.cutter.clone()])
     }
   }
